@@ -17,7 +17,7 @@ CONSTANTS
   PNoiseVals <- cPNoise
   SNoiseVals <- cSNoise
   Ks <- cKsNone
-  PDiag <- cPDiag
+  PDiag <- cPDiag0
   PVec <- cPVec
   ZDeltas <- cZDeltas
   Acts <- cActsFilter
